@@ -281,6 +281,14 @@ class QuerySim:
         return True
 
     # -- operations
+    def op_set_tz(self, op):
+        import time
+
+        os.environ['TZ'] = op['tz']
+        time.tzset()
+        self.bump('tz_' + op['tz'].replace('/', '_'))
+        return 'ok'
+
     def op_open_db(self, op):
         from AEIC.missions import Database
 
@@ -640,8 +648,8 @@ def gen_query_params(rng, cls, spec):
             p['limit'] = rng.choice([1, 2, 5, 20, 1000])
             if rng.random() < 0.6:
                 p['offset'] = rng.choice([0, 1, 3, 10, 500])
-        if rng.random() < 0.15:
-            p['sample'] = rng.choice([1.0, 0.5, 0.5, 0.25])
+        if rng.random() < (0.6 if spec.get('huge') else 0.15):
+            p['sample'] = rng.choice([0.005, 0.015, 0.1] if spec.get('huge') else [1.0, 0.5, 0.5, 0.25])
     elif cls == 'Freq':
         if rng.random() < 0.6:
             p['limit'] = rng.choice([1, 3, 5, 20])
@@ -667,11 +675,16 @@ def draw_config(rng):
         'ties': rng.random() < 0.25, 'index': rng.random() < 0.8}
     if rng.random() < 0.12 and not shipped:
         spec.update(nflights=60, max_inst=60)   # large enough for the sampling band to bite
+    if rng.random() < 0.04 and not shipped:
+        spec.update(nflights=150, max_inst=300, ties=True, huge=True)   # ~20 000 instances: small fractions
+    # the process time zone is part of the environment the simulator owns: dates mean UTC days
+    tz = rng.choice(['UTC', 'UTC', 'Asia/Tokyo', 'America/Los_Angeles', 'Pacific/Kiritimati'])
     return {'spec': spec, 'steps': rng.randint(6, 30), 'nq': rng.randint(1, 4),
-            'share_filter': rng.random() < 0.4}
+            'share_filter': rng.random() < 0.4, 'tz': tz}
 
 
 def script(rng, cfg, sim):
+    yield {'op': 'set_tz', 'tz': cfg.get('tz', 'UTC')}
     yield {'op': 'open_db', 'spec': cfg['spec']}
     if sim.model is None:
         return
